@@ -8,6 +8,7 @@ literals, parenthesis regions, statement extents and leading keywords).  `strip_
 Everything here is data construction: nothing calls the lexer or the parser.
 """
 import functools
+import re
 
 from hypothesis import strategies as st
 
@@ -247,6 +248,7 @@ def expr(depth=2):
         sub.map(lambda e: W('paren', paren(e))),
         st.tuples(st.one_of(st.none(), st.none(), expr(0)), st.lists(st.tuples(cond(depth - 1), sub), min_size=1, max_size=2),
                   st.one_of(st.none(), sub)).map(lambda t: case_expr(*t)),
+        st.tuples(st.none(), st.lists(st.tuples(cond(0), expr(0)), min_size=1, max_size=2), st.one_of(st.none(), expr(0))).map(lambda t: case_expr(*t)),
         st.tuples(sub, st.sampled_from(TYPES)).map(lambda t: seq(W('paren', paren(t[0])), P('::'), L('type', t[1], True))),
         st.tuples(column_ref, st.sampled_from(TYPES)).map(lambda t: seq(t[0], P('::'), L('type', t[1], True))),
         st.tuples(sub, st.sampled_from(TYPES)).map(lambda t: seq(L('kw', 'CAST'), paren(seq(t[0], kw('AS'), L('type', t[1]))))),
@@ -451,12 +453,18 @@ def small_statement():
 WS = [' ', ' ', ' ', '  ', '\n', '\t', '\n  ', ' \n', '\r\n', '   ', '\n\n', ' \t']
 WS_INNER = [' ', ' ', '  ', '\n', '\t', '\r\n', ' \n ']
 _cbody = frag_text("abc ;'()x,*\"`-/é$:\t", ['select', 'END', "';'", 'GO', "don't", '--', '/ *'], 0, 6)
+def _noterm(s):
+    while '*/' in s:
+        s = s.replace('*/', '*')
+    return s
+
+
 COMMENT = st.one_of(
-    _cbody.map(lambda s: '/*' + s.replace('*/', '*') + '*/'),
-    _cbody.map(lambda s: '/*' + s.replace('*/', '*').lstrip('+') + '*/'),
+    _cbody.map(lambda s: '/*' + _noterm(s + '*')[:-1] + '*/'),
+    _cbody.map(lambda s: '/*' + _noterm(s.lstrip('+') + '*')[:-1] + '*/'),
     st.tuples(_cbody, st.sampled_from(['\n', '\n', '\r\n', '\r'])).map(lambda t: '--' + t[0].replace('\n', ' ').replace('\r', ' ') + t[1]),
-    st.tuples(_cbody, st.sampled_from(['\n'])).map(lambda t: '# ' + t[0].replace('\n', ' ').replace('\r', ' ') + t[1]),
-    _cbody.map(lambda s: '/*+ ' + s.replace('*/', '*') + '*/'),
+    st.tuples(_cbody, st.sampled_from(['\n'])).map(lambda t: '# c' + t[0].replace('\n', ' ').replace('\r', ' ') + t[1]),
+    _cbody.map(lambda s: '/*+ ' + _noterm(s + '*')[:-1] + '*/'),
     _cbody.map(lambda s: '--+ ' + s.replace('\n', ' ').replace('\r', ' ') + '\n'),
 )
 
@@ -629,12 +637,15 @@ def rendered_script(max_statements=3, comments=10):
 
 
 def words_of(clean):
-    """expected significant words: multi-word keywords contribute one entry per word"""
+    """expected significant words (kind, text, lexeme index, whitespace written before it in the input):
+    multi-word keywords contribute one entry per word"""
     out = []
     for i, l in enumerate(clean):
-        if l[0] in ('kw', 'cmp', 'type') and (' ' in l[3].get('canon', '') or len(l[1].split()) > 1):
-            for w in l[1].split():
-                out.append((l[0], w, i))
+        gap = l[3].get('gap', ' ')
+        if l[0] in ('kw', 'cmp', 'type') and len(l[1].split()) > 1:
+            ws = re.split(r'(\s+)', l[1])
+            for j in range(0, len(ws), 2):
+                out.append((l[0], ws[j], i, gap if j == 0 else ws[j - 1]))
         else:
-            out.append((l[0], l[1], i))
+            out.append((l[0], l[1], i, gap))
     return out
